@@ -146,6 +146,18 @@ class FnSpec:
         return A(fr.env.vars)
 
     def apply(self, cx, a):
+        el = getattr(cx, "elem", None)
+        if el is not None:  # generic element of a comprehension / sort key: collect instead of forking
+            for nm, g in self.requires(cx, a):
+                el.fails.append(("AssertionError:call-pre:" + nm, z3.Not(as_bool(cx, g))))
+            for exc, cond in (self.raises(cx, a) or {}).items():
+                el.fails.append((exc, as_bool(cx, cond)))
+            self.effects(cx, a)
+            res = self.result(cx, a)
+            if not self.pure:
+                for item in self.ensures(cx, a, res):
+                    el.axioms.append(as_bool(cx, item[1]))
+            return res
         for nm, g in self.requires(cx, a):
             cx.oblige(f"call-pre:{self.qual}:{nm}", "call-pre", g)
         for exc, cond in (self.raises(cx, a) or {}).items():
@@ -391,6 +403,7 @@ def verify_function(registry, spec, tier, prop):
         rep["obligations"].append({"name": f"{prop}/{spec.file}:{spec.qual}/engine-supports-function", "kind": "unsupported", "verdict": "unsupported", "fn": rep["fn"], "detail": str(e), "line": None})
         return rep
     rep["paths"] = len(paths)
+    rep["path_summary"] = [f"{p['outcome']}:{p['exc'] or ''}@L{p['line']} d={''.join(str(int(d)) for d in p['decisions'])}" for p in paths][:200]
     groups = {}
     solver_s = 0.0
     nq = 0
@@ -472,3 +485,82 @@ def filter_comprehension(interp, cx, fr, e):
     cx.assume(z3.ForAll([i], z3.Implies(z3.And(0 <= i, i < n_s, P(src.at(i))), z3.And(0 <= gg(i), gg(i) < n_r, f(gg(i)) == i))))
     cx.ghost.setdefault("filters", []).append((res, src, f, gg, P))
     return res
+
+
+def map_comprehension(interp, cx, fr, e):
+    """Schema for `[f(x) for x in SEQ]`, `{k(x): v(x) for x in SEQ}`, `{f(x) for x in SEQ}` over a symbolic list:
+    the element expressions are evaluated once on a generic element src[i]; if some element evaluation can raise,
+    the comprehension raises (first collected exception class), otherwise the result is described pointwise."""
+    from .containers import SMap, SSet, TRef
+
+    if len(e.generators) != 1 or e.generators[0].ifs:
+        return NotImplemented
+    g = e.generators[0]
+    src = interp.eval(cx, fr, g.iter)
+    if interp.iter_concrete(cx, src) is not None:
+        return NotImplemented
+    if not isinstance(src, SSeq):
+        raise Unsupported("map schema: source is not a symbolic list")
+    src = src.snapshot()
+    n = src.n
+    i = z3.Int(fresh_name("mi"))
+    exprs = [e.key, e.value] if isinstance(e, ast.DictComp) else [e.elt]
+    sub_fr = Frame(fr.modinfo, fr.qual, Env(fr.env), spec=fr.spec, cls=fr.cls)
+    vals, fails, axioms = interp.eval_exprs_on_element(cx, sub_fr, g.target, src.at(i), exprs, i)
+    rng_i = z3.And(0 <= i, i < n)
+    if fails:
+        anyfail = z3.Exists([i], z3.And(rng_i, z3.Or(*[c for _, c in fails])))
+        if cx.decide(anyfail):
+            cx.py_raise(fails[0][0], "element evaluation failed in comprehension")
+        cx.assume(z3.ForAll([i], z3.Implies(rng_i, z3.Not(z3.Or(*[c for _, c in fails])))))
+    for ax in axioms:
+        cx.assume(z3.ForAll([i], z3.Implies(rng_i, ax)))
+    cx.ghost.setdefault("maps", []).append((e, src, i, vals))
+    if isinstance(e, ast.ListComp) or isinstance(e, ast.GeneratorExp):
+        v = vals[0]
+        elt = type_of_value(v)
+        res = SSeq.fresh(elt, "mapped")
+        cx.assume(res.n == n)
+        cx.assume(z3.ForAll([i], z3.Implies(rng_i, res.at_term(i) == elt.unwrap(cx, v))))
+        return res
+    if isinstance(e, ast.DictComp):
+        k, v = vals
+        kt, vt = type_of_value(k), type_of_value(v)
+        res = SMap.fresh(kt, vt, "mapped")
+        kk = z3.Const(fresh_name("mk"), kt.sort())
+        kterm, vterm = kt.unwrap(cx, k), vt.unwrap(cx, v)
+        cx.assume(z3.ForAll([kk], res.has(kk) == z3.Exists([i], z3.And(rng_i, kterm == kk))))
+        cx.assume(z3.ForAll([i], z3.Implies(rng_i, z3.And(res.has(kterm), res.get_term(kterm) == vterm))))
+        j = z3.Int(fresh_name("mj"))
+        cx.oblige("dict-comprehension:value-determined-by-key", "schema", z3.ForAll([i, j], z3.Implies(z3.And(rng_i, 0 <= j, j < n, kterm == z3.substitute(kterm, (i, j))), vterm == z3.substitute(vterm, (i, j)))), clause="dict comprehension schema applies (equal keys give equal values)")
+        return res
+    if isinstance(e, ast.SetComp):
+        v = vals[0]
+        kt = type_of_value(v)
+        vterm = kt.unwrap(cx, v)
+        kk = z3.Const(fresh_name("sk"), kt.sort())
+        res = SSet.fresh(kt, "image")
+        cx.assume(z3.ForAll([kk], res.has(kk) == z3.Exists([i], z3.And(rng_i, vterm == kk))))
+        j = z3.Int(fresh_name("sj"))
+        card = z3.Int(fresh_name("card"))
+        inj = z3.ForAll([i, j], z3.Implies(z3.And(rng_i, 0 <= j, j < n, i != j), vterm != z3.substitute(vterm, (i, j))))
+        cx.assume(z3.And(card >= 0, card <= n, (card == n) == inj))  # T4: |image| = |domain| iff injective
+        res.card = card
+        return res
+    return NotImplemented
+
+
+def type_of_value(v):
+    from .containers import BOOL, INT, STR, SRef, TRef
+
+    if isinstance(v, (SInt, int)) and not isinstance(v, bool):
+        return INT
+    if isinstance(v, (SStr, str)):
+        return STR
+    if isinstance(v, (SBool, bool)):
+        return BOOL
+    if isinstance(v, SRef):
+        return TRef(v.cls)
+    if hasattr(v, "type_desc"):
+        return v.type_desc()
+    raise Unsupported(f"no type descriptor for {v!r}")
